@@ -7,7 +7,7 @@ def gen_history(rng, profile=None, max_ops=40):
     """profile: dict of weights/biases. Returns a JSON-able case {'root':..., 'ops':[...], 'profile':...}."""
     p = {'pressure': 0.6, 'identity': 0.3, 'affinity': 0.4, 'failure': 0.4, 'partitions': 0.3,
          'lease': 0.2, 'traits': 0.3, 'alloc': 0.5, 'raw_remove': 0.1, 'renew': 0.1, 'once': 0.1,
-         'blacklist': 0.15, 'maxutil': 0.15, 'prio0': 0.15}
+         'blacklist': 0.15, 'maxutil': 0.15, 'prio0': 0.15, 'deep': 0.0}
     if profile:
         p.update(profile)
     ops = []
@@ -59,6 +59,8 @@ def gen_history(rng, profile=None, max_ops=40):
             path = [6000 + rng.randint(0, 2)]
             if rng.random() < 0.5:
                 path.append(6010 + rng.randint(0, 2))
+            while rng.random() < p['deep'] and len(path) < 5:
+                path.append(6020 + rng.randint(0, 1))
             st['allocs'].append((label, path))
             if rng.random() < p['alloc']:
                 res = [rng.choice([0, base, 2 * base]) for _ in range(3)]
